@@ -127,7 +127,7 @@ let () =
       register2 k (fun a impl ->
           let sym = (match String.index_opt impl ':' with Some i -> String.sub impl 0 i | None -> impl) in
           { model = "-"; spec = "same"; cls = if impl = "same" then "" else Printf.sprintf "%s:%s:%s" k a.(0) sym }))
-    ["xtomat"; "xeng"; "rrepeat"; "slinto"; "xcopyov"; "xred"];
+    ["xtomat"; "xeng"; "rrepeat"; "slinto"; "xcopyov"; "xred"; "xredfn"];
   (* xtext <format> <variant> <shape>: a refusal when writing is within the statement ("or is refused") *)
   register2 "xtext" (fun a impl ->
       let sym = (match String.index_opt impl ':' with Some i -> String.sub impl 0 i | None -> impl) in
